@@ -208,7 +208,7 @@ class Flow:
         body = strip(forn["body"])
         stmts = body.get("stmts", []) if body.get("k") == "block" else []
         tail = body.get("e") if body.get("k") == "block" else body
-        tops = [s["e"] for s in stmts if s.get("k") == "semi"] + ([tail] if tail is not None else [])
+        tops = before_escape(stmts, tail)
         for e in tops:
             e = strip(e)
             if e.get("k") == "assign":
@@ -228,7 +228,7 @@ class Flow:
         body = strip(body)
         stmts = body.get("stmts", []) if body.get("k") == "block" else []
         tail = body.get("e") if body.get("k") == "block" else body
-        tops = [s["e"] for s in stmts if s.get("k") == "semi"] + ([tail] if tail is not None else [])
+        tops = before_escape(stmts, tail)
         for e in tops:
             e = strip(e)
             if e.get("k") == "mcall" and e["m"] == "send" and self_field(e["recv"]):
@@ -238,6 +238,23 @@ class Flow:
                 if comps is not None:
                     out |= self.unconditional_sends(e["body"])
         return out
+
+
+def before_escape(stmts, tail):
+    """statement-level expressions of a loop body that are reached on *every* iteration: everything before the first statement
+    that can leave the iteration early (continue / break / return / `?`), which makes what follows conditional"""
+    out = []
+    for s in stmts:
+        node = s.get("init") if s.get("k") == "let" else s.get("e")
+        if node is not None and any(x.get("k") in ("continue", "break", "ret", "try") for x in walk(node)):
+            return out
+        if s.get("k") == "let" and s.get("els") is not None:
+            return out
+        if s.get("k") == "semi":
+            out.append(s["e"])
+    if tail is not None:
+        out.append(tail)
+    return out
 
 
 def strip_field(n):
